@@ -39,6 +39,9 @@ def main():
         res["demo_clean_exit"], _ = sh(demo, wt, env)
         tests = meta.get("tests_run", "").replace(author_wt, wt)
         tests = re.sub(r"^cd \S+ && ", "", tests)
+        # keep only the runnable pytest command (authors sometimes append prose)
+        m = re.search(r"((?:PYTHONPATH=\S+ )?\S*python\S* -m pytest[^;&|(]*)", tests)
+        tests = m.group(1).strip() if m else ""
         if tests:
             _, out = sh(tests, wt, env)
             res["tests_clean"] = summary(out)
